@@ -45,13 +45,16 @@ ADDRS = ['a@x.test', '"a b"@x.test', '"a>b"@x.test', '"a@b"@x.test', '"a\\"b"@x.
          'A.B+tag@X.Test']
 SENDERS = ADDRS + ['']
 HEADERS = [b'Subject: plain\r\nFrom: a@x.test\r\n', b'Subject: 8-bit caf\xc3\xa9 \xe9\r\nX-A: 1\r\n',
-           b'Subject: folded\r\n line two\r\n\tline three\r\nX-Long: ' + b'x' * 60 + b'\r\n']
+           b'Subject: folded\r\n line two\r\n\tline three\r\nX-Long: ' + b'x' * 60 + b'\r\n',
+           b'',                  # no header fields at all: the content starts with the empty line
+           # a line that is no header field ends the header block early (the parser hands the rest over as content)
+           b'Subject: early end\r\nthis line is no header field\r\nX-After: 1\r\n']
 BODIES = [b'', b'a', b'a\r\n', b'.\r\n', b'..\r\n.a\r\n', b'\r\n.\r\n', b'a\nb\rc\r\n', b'.', b'\r\n\r\n', b'caf\xc3\xa9 \xe9\xff\r\n',
           b'x' * 70 + b'\r\n', b'line\r\n.\r\nQUIT\r\n', b'first\n.second after a bare LF\nlast\r\n', b'\n.\n', b'a\r.b\r\n']
 EXTS = ['PIPELINING', '8BITMIME', 'SMTPUTF8', 'SIZE', 'AUTH']
 
 RULE = ('address sweep: 9 senders x 26 recipient lists (1..3 addresses incl. quoted local parts, UTF-8, duplicates) x 2 bodies; '
-        'content sweep: 3 header blocks x 15 bodies x 2 address sets; each x SMTP server configurations (every single extension '
+        'content sweep: 5 header blocks (one empty, one ended early by a non-header line) x 15 bodies x 2 address sets; each x SMTP server configurations (every single extension '
         'dropped, all, none, SIZE=50, AUTH, STARTTLS, HELO fallback, connection re-use, 7-bit conversion with an encoder) and x '
         'LMTP and HTTP transports.  Non-trivial = envelope with a quoted/UTF-8/null address, 8-bit or dot-leading content, or '
         'a configuration that cannot carry it.')
@@ -94,7 +97,10 @@ def make_env(sender, rcpts, hdr, body):
     # header block parsed, body assigned as it is: the envelope handed to the relay must not depend on the parser that the
     # receiving edge is going to use on the same bytes
     e.parse(hdr + b'\r\n')
-    e.message = body
+    if b'no header field' in hdr:
+        e.message = e.message + body        # what the parser moved out of the header block stays in front of the body
+    else:
+        e.message = body
     e.client = {'ip': '192.0.2.9', 'name': 'client'}
     e.receiver = 'origin.test'
     e.timestamp = 0
